@@ -24,7 +24,8 @@
       `C15_cut_area_conserved_inner` (the signed areas of the new triangles add up to the old ones).
   (e) findings: `C15_D9_witness` (swap_edge on unit_triangles(1) moves two corners and halves the area) with
       `C15_swap_area_partial` (the specified retriangulation conserves the area when no coordinate moves);
-      `C15_D15a_witness`, `C15_D15d_witness`, `C15_D15e_witness`, `C15_D15g_witness` (`decide +kernel` on small meshes).
+      `C15_D15a_witness`, `C15_D15d_witness`, `C15_D15e_witness` (`decide +kernel` on small meshes); former D15g:
+      `C15_collapse_no_flat_triangle`, `C15_D15g_regression`.
   (f) former findings D15b / D15c, fixed in /repo 27a7433 / aac3ec9 — positive statements:
       `C15_cutOuter_second_half_anchored` (every map, configuration and spare numbering: after a successful
       cut_outer_edge the edge of nd3 carries the cut edge's EdgeAnchor), `C15_cut_midpoint_under_vertex_id` (both cut
@@ -998,7 +999,7 @@ theorem ro_isOrbitOrientationConsistent (k vid : Nat) : ReadOnly (isOrbitOrienta
   · refine ReadOnly.bind (readOnly_orbit2 _ _ _) fun tmp => ?_
     cases tmp
     · exact ReadOnly.panic
-    · exact ReadOnly.bind (ro_fanSign _ _ _) fun _ => ro_fanAllSame _ _ _ _
+    · exact ReadOnly.bind (ro_fanSign _ _ _) fun _ => ReadOnly.ite (ReadOnly.pure _) (ro_fanAllSame _ _ _ _)
 
 theorem ao_isCollapsible (cfg : Cfg Val) (k e : Nat) : AttrOnly (isCollapsible cfg k e) := by
   unfold isCollapsible
@@ -1842,19 +1843,170 @@ def flatGrid : Map Val :=
       #[none, tml 2, none, none, tml 2, none, none, tml 2, tml 2, none, tml 2, none, none, tml 2, none, none, tml 2, none,
         none, tml 2, none, none, tml 2, none, none, none, none, none, none] }
 
-/-- **C15 (e), D15g**: `collapse_edge(5)` (from the boundary vertex `(7/8,0)` on curve 0 to the interior vertex
-    `(15/16,15/16)`: towards the boundary vertex) succeeds although it flattens the triangle 7-27-8, whose corners
-    `(7/8,0)`, `(23/16,0)`, `(2,0)` are collinear afterwards: `is_orbit_orientation_consistent` compares `signum()`s and
-    `f64::signum(+0.0) = 1.0` -/
-theorem C15_D15g_witness :
-    let r := run (collapseEdge (stdCfg 3 224) 28 5) flatGrid
-    WF 3 flatGrid ∧ r.1 = .ok 2 ∧ r.2.β 1 7 = 27 ∧ r.2.β 1 27 = 8 ∧ r.2.β 1 8 = 7 ∧
-    (run (vertexId2 28 7) r.2).1 = .ok 2 ∧ (run (vertexId2 28 27) r.2).1 = .ok 27 ∧ (run (vertexId2 28 8) r.2).1 = .ok 8 ∧
-    r.2.att 0 2 = some (.pt (7/8) 0 0) ∧ r.2.att 0 27 = some (.pt (23/16) 0 0) ∧ r.2.att 0 8 = some (.pt 2 0 0) ∧
+/-- **C15 (e), former finding D15g (fixed in /repo 94962f9), regression**: `collapse_edge(5)` on `flatGrid` (from the
+    boundary vertex `(7/8,0)` on curve 0 to the interior vertex `(15/16,15/16)`: towards the boundary vertex) would
+    flatten the triangle 7-27-8, whose corners `(7/8,0)`, `(23/16,0)`, `(2,0)` are collinear; the call used to succeed
+    (`f64::signum(+0.0) = 1.0`), it is now refused with `InvertedOrientation` (hence, `C15_error_leaves_map_unchanged`, the
+    map is unchanged) -/
+theorem C15_D15g_regression :
+    WF 3 flatGrid ∧ (run (collapseEdge (stdCfg 3 224) 28 5) flatGrid).1 = .err errInvertedOrientation ∧
     cross ⟨7/8, 0⟩ ⟨23/16, 0⟩ ⟨2, 0⟩ = 0 := by
   decide +kernel
 
+/-! ### the orientation post-check is strict (former D15g) -/
+
+/-- the triangle of dart `d` seen from the new vertex value `newV`: the two other corners are read at the vertex
+    identifiers of `β1 d` and `β1 (β1 d)`, `c` is `cross_product_from_vertices(new_v, v1, v2)` -/
+def FanCross (n : Nat) (m : Map Val) (newV : Val) (d : Nat) (c : Rat) : Prop :=
+  ∃ vid1 vid2 v1 v2, run (vertexId2 n (m.β 1 d)) m = (.ok vid1, m) ∧
+    run (vertexId2 n (m.β 1 (m.β 1 d))) m = (.ok vid2, m) ∧ m.att 0 vid1 = some v1 ∧ m.att 0 vid2 = some v2 ∧
+    c = cross newV.p2 v1.p2 v2.p2
+
+theorem fanSign_ok {n : Nat} {newV : Val} {d : Nat} {m m' : Map Val} {z : Bool} {s : Int}
+    (h : run (fanSign n newV d) m = (.ok (z, s), m')) :
+    ∃ c, FanCross n m newV d c ∧ z = decide (c = 0) ∧ (z = false → (s = 1 ↔ 0 < c) ∧ (s = -1 ↔ c < 0)) := by
+  unfold fanSign at h
+  obtain ⟨_, h⟩ := rB_ok h
+  obtain ⟨_, h⟩ := rB_ok h
+  obtain ⟨vid1, hv1, h⟩ := ro_bind_ok (readOnly_vertexId2 _ _) h
+  obtain ⟨vid2, hv2, h⟩ := ro_bind_ok (readOnly_vertexId2 _ _) h
+  obtain ⟨_, h⟩ := rA_ok h
+  cases ha : m.att 0 vid1 with
+  | none => simp [ha] at h
+  | some v1 =>
+      simp only [ha] at h
+      obtain ⟨_, h⟩ := rA_ok h
+      cases hb : m.att 0 vid2 with
+      | none => simp [hb] at h
+      | some v2 =>
+          simp only [hb] at h
+          simp only [Prog.pure_eq, run_ret, Prod.mk.injEq, Out.ok.injEq] at h
+          obtain ⟨⟨hz, hs⟩, _⟩ := h
+          refine ⟨cross newV.p2 v1.p2 v2.p2, ⟨vid1, vid2, v1, v2, hv1, hv2, ha, hb, rfl⟩, hz.symm, ?_⟩
+          intro hz0
+          rw [hz0] at hz
+          have cne : cross newV.p2 v1.p2 v2.p2 ≠ 0 := by
+            intro hh; simp [hh] at hz
+          by_cases hp : cross newV.p2 v1.p2 v2.p2 > 0
+          · have s1 : s = 1 := by rw [← hs]; unfold crossSignum signumF; rw [if_pos hp]
+            exact ⟨⟨fun _ => hp, fun _ => s1⟩, ⟨fun hh => by omega, fun hh => absurd hp (not_lt.2 (le_of_lt hh))⟩⟩
+          · have hn : cross newV.p2 v1.p2 v2.p2 < 0 := lt_of_le_of_ne (not_lt.1 hp) cne
+            have s1 : s = -1 := by rw [← hs]; unfold crossSignum signumF; rw [if_neg hp, if_pos hn]
+            exact ⟨⟨fun hh => by omega, fun hh => absurd hh hp⟩, ⟨fun _ => hn, fun _ => s1⟩⟩
+
+theorem fanAllSame_true {n : Nat} {newV : Val} {ref : Int} {m : Map Val} :
+    ∀ (l : List Nat) {m' : Map Val}, run (fanAllSame n newV ref l) m = (.ok true, m') →
+      ∀ d, d ∈ l → run (fanSign n newV d) m = (.ok (false, ref), m)
+  | [], _, _, d, hd => by simp at hd
+  | x :: xs, m', h, d, hd => by
+      unfold fanAllSame at h
+      obtain ⟨zs, hzs, h⟩ := ro_bind_ok (ro_fanSign _ _ _) h
+      by_cases c : zs.1 = true ∨ ref ≠ zs.2
+      · simp [c] at h
+      · simp only [c, if_false] at h
+        have c1 : zs.1 = false := by cases hh : zs.1 <;> simp_all
+        have c2 : ref = zs.2 := by
+          by_cases hh : ref = zs.2
+          · exact hh
+          · exact absurd (Or.inr hh) c
+        rcases List.mem_cons.1 hd with rfl | hd
+        · rw [hzs]; congr 2; exact Prod.ext c1 c2.symm
+        · exact fanAllSame_true xs h d hd
+
+/-- **C15, the orientation post-check is strict** (/repo 94962f9, former finding D15g): whenever
+    `is_orbit_orientation_consistent(vid)` answers `true`, every triangle of the fan around `vid` (every dart of the
+    vertex orbit) has a NON-ZERO cross product seen from the vertex, all of the same sign: no flat triangle -/
+theorem C15_orientation_check_strict {n vid : Nat} {m m' : Map Val}
+    (h : run (isOrbitOrientationConsistent n vid) m = (.ok true, m')) :
+    ∃ newV tmp, m.att 0 vid = some newV ∧ run (orbit2 n .vertex vid) m = (.ok tmp, m) ∧
+      ((∀ d, d ∈ tmp → ∃ c, FanCross n m newV d c ∧ 0 < c) ∨ (∀ d, d ∈ tmp → ∃ c, FanCross n m newV d c ∧ c < 0)) := by
+  unfold isOrbitOrientationConsistent at h
+  obtain ⟨_, h⟩ := rA_ok h
+  cases hv : m.att 0 vid with
+  | none => simp [hv] at h
+  | some newV =>
+      simp only [hv] at h
+      obtain ⟨tmp, htmp, h⟩ := ro_bind_ok (readOnly_orbit2 _ _ _) h
+      refine ⟨newV, tmp, rfl, htmp, ?_⟩
+      cases tmp with
+      | nil => simp at h
+      | cons d ds =>
+          simp only at h
+          obtain ⟨zr, hzr, h⟩ := ro_bind_ok (ro_fanSign _ _ _) h
+          by_cases c : zr.1 = true
+          · simp [c] at h
+          · simp only [c, if_false] at h
+            have c1 : zr.1 = false := by cases hh : zr.1 <;> simp_all
+            have all := fanAllSame_true ds h
+            have hd0 : run (fanSign n newV d) m = (.ok (false, zr.2), m) := by
+              rw [hzr]; congr 2; exact Prod.ext c1 rfl
+            have every : ∀ x, x ∈ d :: ds → run (fanSign n newV x) m = (.ok (false, zr.2), m) := by
+              intro x hx
+              rcases List.mem_cons.1 hx with rfl | hx
+              · exact hd0
+              · exact all x hx
+            obtain ⟨c0, _, _, sg0⟩ := fanSign_ok hd0
+            have s0 := sg0 rfl
+            obtain ⟨cz, _, zz, _⟩ := fanSign_ok hd0
+            -- the reference sign is 1 or -1
+            have ref1 : zr.2 = 1 ∨ zr.2 = -1 := by
+              obtain ⟨cc, _, hz, sg⟩ := fanSign_ok hd0
+              have cne : cc ≠ 0 := by intro hh; simp [hh] at hz
+              rcases lt_or_gt_of_ne cne with hlt | hgt
+              · exact Or.inr ((sg rfl).2.2 hlt)
+              · exact Or.inl ((sg rfl).1.2 hgt)
+            rcases ref1 with r1 | r1
+            · left
+              intro x hx
+              obtain ⟨cc, fc, _, sg⟩ := fanSign_ok (every x hx)
+              exact ⟨cc, fc, (sg rfl).1.1 r1⟩
+            · right
+              intro x hx
+              obtain ⟨cc, fc, _, sg⟩ := fanSign_ok (every x hx)
+              exact ⟨cc, fc, (sg rfl).2.1 r1⟩
+
+/-- **C15, a successful collapse passed the strict check**: when `collapse_edge(e)` succeeds with the vertex `v`, the
+    orientation check answers `true` on the RESULTING map at `v` -/
+theorem C15_collapse_passed_check (cfg : Cfg Val) (m m' : Map Val) (e v : Nat) (hwf : WF 3 m) (he : e < m.n)
+    (h : run (collapseEdge cfg m.n e) m = (.ok v, m')) :
+    run (isOrbitOrientationConsistent m.n v) m' = (.ok true, m') := by
+  rw [C15_collapse_guards cfg m.n e m (fun i d hi hd => (hwf.toSized.okβ i d).2 ⟨hi, hd⟩)
+    (fun i d hi hd => hwf.range i hi d hd) he] at h
+  by_cases e0 : e = 0
+  · simp [e0] at h
+  simp only [e0, if_false] at h
+  by_cases g1 : m.β 1 (m.β 1 e) ≠ m.β 0 e
+  · simp [g1] at h
+  simp only [g1, if_false] at h
+  by_cases g2 : m.β 2 e ≠ 0 ∧ m.β 1 (m.β 1 (m.β 2 e)) ≠ m.β 0 (m.β 2 e)
+  · simp [g2] at h
+  simp only [g2, if_false] at h
+  unfold collapseBodyG at h
+  obtain ⟨c, m1, _, h⟩ := run_bind_ok h
+  obtain ⟨vid, m2, _, h⟩ := run_bind_ok h
+  obtain ⟨ok, hro, h⟩ := ro_bind_ok (ro_isOrbitOrientationConsistent _ _) h
+  cases ok
+  · simp at h
+  · simp at h
+    obtain ⟨rfl, rfl⟩ := h
+    exact hro
+
+/-- **C15, no flat triangle after a collapse** (former finding D15g): after a successful `collapse_edge(e) = v`, every
+    triangle around the resulting vertex `v` has a non-zero cross product seen from `v`, all of the same strict sign -/
+theorem C15_collapse_no_flat_triangle (cfg : Cfg Val) (m m' : Map Val) (e v : Nat) (hwf : WF 3 m) (he : e < m.n)
+    (h : run (collapseEdge cfg m.n e) m = (.ok v, m')) :
+    ∃ newV tmp, m'.att 0 v = some newV ∧ run (orbit2 m.n .vertex v) m' = (.ok tmp, m') ∧
+      ((∀ d, d ∈ tmp → ∃ c, FanCross m.n m' newV d c ∧ 0 < c) ∨
+       (∀ d, d ∈ tmp → ∃ c, FanCross m.n m' newV d c ∧ c < 0)) :=
+  C15_orientation_check_strict (C15_collapse_passed_check cfg m m' e v hwf he h)
+
 /-! ## non-vacuity of the hypotheses -/
+
+/-- the hypotheses of `C15_collapse_passed_check` / `C15_collapse_no_flat_triangle` hold for `collapse_edge(26)` on
+    `cutGrid` (a successful collapse) -/
+example : WF 3 cutGrid ∧ 26 < cutGrid.n ∧ (run (collapseEdge (stdCfg 3 0) cutGrid.n 26) cutGrid).1 = .ok 3 := by
+  decide +kernel
+
 
 example : WF 3 unitSquare ∧ C01.InUse unitSquare 2 ∧ (unitSquare.β 1 2 ≠ 0 ∧ unitSquare.β 0 2 ≠ 0) ∧
     (unitSquare.β 1 (unitSquare.β 2 2) ≠ 0 ∧ unitSquare.β 0 (unitSquare.β 2 2) ≠ 0) := by decide
